@@ -3,6 +3,11 @@ from props._walk import run_walks
 
 def run(ctx):
     corr, violations = run_walks(ctx, {"partition", "others", "events", "backtrack"}, {"heur"}, 250, 15000, ["split_low_ground"])
+    # a user-registered constraint woken by instantiation only (harness/ground_watch.py): every GROUND announcement counts
+    import random as _random
+    import ground_watch
+    import nv as _nv
+    violations += ground_watch.run(ctx["report"], _random.Random(ctx["seed"] + 909), (150 * _nv.boost("engine")) if ctx["tier"] == "quick" else 3000, (0,))
     ctx["report"].cov["rule"] = (
         "random walks of the real engine: every branching decision is made by a real shipped value heuristic on the real "
         "stack arrays and replayed on the Lean model (branch taken, saved alternatives with their recorded replay events, "
